@@ -241,11 +241,10 @@ def validate_traces(module: str, traces: List[dict], *, constants: str = "",
             gen += r.generated
             dist += r.distinct
             rej_here = []
-            for s in r.prints:
-                m = re.match(r'<<"REJECTED",\s*(\d+),\s*(\d+),\s*"([^"]*)">>', s)
-                if m:
-                    rej_here.append({"tid": c0 + int(m.group(1)) - 1, "event": int(m.group(2)),
-                                     "why": m.group(3)})
+            # TLC wraps long tuples over several lines: search the whole output
+            for m in re.finditer(r'<<\s*"REJECTED",\s*(\d+),\s*(\d+),\s*"([^"]*)"\s*>>', r.stdout):
+                rej_here.append({"tid": c0 + int(m.group(1)) - 1, "event": int(m.group(2)),
+                                 "why": m.group(3)})
             if not rej_here and not r.ok:
                 raise MachineryError(f"trace validation of {module} failed without a verdict:\n"
                                      + "\n".join(r.errors[:5]) + "\n" + r.stdout[-3000:])
